@@ -110,7 +110,7 @@ func isNamed(t types.Type, pkg, name string) bool {
 
 func (m *Machine) zero(t types.Type) Value {
 	switch {
-	case isNamed(t, "math/big", "Int"):
+	case isNamed(t, "math/big", "Int") && !m.realBig():
 		return BigVal{mkInt(0)}
 	case isNamed(t, "time", "Time"):
 		return TimeVal{mkIntBig(zeroTimeNs)}
